@@ -733,6 +733,103 @@ reg(Spec(
               "workloads of all other checks + exhaustive accessor-bounds "
               "oracle"))
 
+# ----------------------------------------------------------------------- C16
+ROUND_CFG = [(sc, opt) for sc in ("f", "d", "ld") for opt in ("O0", "O2", "O3")]
+
+
+def c16_runs(tier, seed):
+    n = q(tier, 4000, 400000)
+    runs = []
+    for sc, opt in ROUND_CFG:
+        for fl in (opt, opt + "n"):   # self-checks on / off, same seed
+            runs.append(RunSpec("round", sc, fl, n, shards=q(tier, 4, 16)))
+    # the functional drivers report C16 as well (same oracle, other workloads)
+    runs += [RunSpec("gen", "d", "plain", q(tier, 16000, 400000)),
+             RunSpec("ops", "d", "plain", q(tier, 60000, 3000000)),
+             RunSpec("pool", "d", "plain", q(tier, 640, 60000))]
+    runs += expr_runs(tier, seed, scalars=("d",))
+    if tier == "thorough":
+        for sc in ("f", "ld"):
+            runs += [RunSpec("gen", sc, "plain", 400000),
+                     RunSpec("ops", sc, "plain", 1000000),
+                     RunSpec("pool", sc, "plain", 20000)]
+        runs += expr_runs(tier, seed, scalars=("f", "ld"), nrandom=100)
+    return runs
+
+
+def c16_post(res, tier, seed):
+    """values must not depend on whether the self-checks are compiled in"""
+    by = {r["binary"]: r for r in res.per_run}
+    compared = 0
+    for sc, opt in ROUND_CFG:
+        a = by.get("round-%s-%s" % (sc, opt))
+        b = by.get("round-%s-%sn" % (sc, opt))
+        if not a or not b or "digest" not in a or "digest" not in b:
+            res.inconclusive.append("missing digest for round-%s-%s" % (sc, opt))
+            continue
+        compared += 1
+        if a["digest"] != b["digest"]:
+            key = "C16/selfcheck-dependence/%s/%s" % (sc, opt)
+            res.violations.append({
+                "prop": "C16", "key": key,
+                "detail": "digest of all result bit patterns with "
+                          "-DBSPLINE_ADD_TEST_CHECKS (%s) differs from the one "
+                          "without (%s) for type %s at -%s, seed %s" % (
+                              a["digest"], b["digest"], sc, opt, seed),
+                "replay": {"property": "C16", "key": key, "driver": "round",
+                           "source": None, "extra_sources": [],
+                           "scalar": sc, "flavour": opt, "defines": [],
+                           "extra_flags": [], "libs": [], "name": None,
+                           "params": {}, "seed": seed, "case": 0,
+                           "cases": 1, "wrapper": None, "env": None,
+                           "extra_args": None,
+                           "detail": "compare ./check C16 digests"}})
+    res.counters["digest-pairs-compared"] = compared
+    res.extra["coverage"] = {"digests": {
+        r["binary"]: r.get("digest") for r in res.per_run
+        if r["binary"].startswith("round-")}}
+
+
+reg(Spec(
+    "C16", "floating-point results stay at rounding level; self-checks inert",
+    c16_runs,
+    rule=("configurations: float, double, long double x -O0/-O2/-O3 x "
+          "self-checks on/off (18 builds of one compact driver). case k -> "
+          "order 2 + k mod 5; knot vectors on the 1/16 lattice in [-8,8] with "
+          "spacing >= 1/8 (a quarter each: minimal spacing, unit spacing, "
+          "powers of two, random; start pinned to -8, to +8, centred, random), "
+          "clamped / interior-repeat / random multiplicities; a generated "
+          "B-spline and a general order-2 spline (half of them with "
+          "full-mantissa coefficients, a sixth with cancelling sign patterns). "
+          "Per case every quantity the property names is computed and compared "
+          "with the exact rational result for the same inputs: all generated "
+          "coefficients, a+b, a-b, a*b, c*a, X<4>, Dx<2>, the chain "
+          "((x d/dx - d/dx x + x^2 d^2/dx^2)(x-3)), evaluations next to every "
+          "knot and outside the support, ScalarProduct, BilinearForm{X<2>,"
+          "Dx<1>}, LinearForm{X<3>}. Bound: sum_j|c^_j-c_j|h^j <= 2^20 eps "
+          "sum_j S_j h^j per interval (S = absolute interpretation of the "
+          "defining formula over the direct operands; generated B-splines: "
+          "|c_j|), analogous for scalars; NaN/inf is a violation. Each case "
+          "folds the bit patterns of all results into a digest; per (type, "
+          "level) the digest with self-checks must equal the one without. "
+          "The generator / operator / pool / expression drivers apply the "
+          "same bound to their own workloads (double; thorough: all types). "
+          "Distinct by (knots, operand coefficients)."),
+    required=["cases-run", "edge:|x|=8", "edge:spacing=1/8", "order:6",
+              "coefficients:full-mantissa", "checked:generate", "checked:sum",
+              "checked:product", "checked:X<4>", "checked:expression-chain",
+              "checked:evaluate", "checked:evaluate-outside",
+              "checked:scalar-product", "checked:bilinear-form",
+              "checked:linear-form", "digest-pairs-compared"],
+    assumptions=[DYADIC, "x86-64: SSE2 for float/double, x87 for long double, "
+                 "no FMA contraction; bit-equality across optimisation levels "
+                 "is not demanded, only the bound"],
+    evaluations="cases-run",
+    post=c16_post,
+    technique="runtime monitor: exact-rational oracle with the property's "
+              "2^20 eps bound over edge-of-domain workloads in 18 build "
+              "configurations + digest comparison self-checks on/off"))
+
 # ------------------------------------------------- pool machine: C03/10/14/15
 POOL_RULE = ("one case = one history of 150 steps over a pool of 15 splines "
              "(orders 0..4, three slots each, on a grid of 6..10 points held in "
